@@ -19,8 +19,24 @@ def sh(cmd, **kw):
     return subprocess.run(cmd, capture_output=True, text=True, **kw)
 
 
+import itertools
+import threading
+
+_pool = [Path(f"/tmp/wt/E{i}") for i in range(1, 6)]   # evaluation worktrees (never the authors' own worktrees: they may still be in use)
+_lock = threading.Lock()
+
+
 def one(rdir: Path):
-    wt = Path("/tmp/wt") / rdir.name
+    with _lock:
+        wt = _pool.pop()
+    try:
+        return _one(rdir, wt)
+    finally:
+        with _lock:
+            _pool.append(wt)
+
+
+def _one(rdir: Path, wt: Path):
     rows = []
     for d in sorted(rdir.glob("refactor*.diff")):
         sh(["git", "-C", str(wt), "checkout", "--", "."])
